@@ -52,10 +52,14 @@ def rebuild_queues(job: RebuildQueuesJob):
     if not queue_branches:
         raise exceptions.JobSuccess()
 
-    branch_factory(
-        repo,
-        'development/{}'.format(queue_branches[0].version)
-    ).checkout()
+    # move away from the queue branches before deleting them; a
+    # stabilization or hotfix queue (q/x.y.z, q/x.y.z.n) has no
+    # development/<version> counterpart
+    queue_branch = queue_branches[0]
+    if queue_branch.minor is None:
+        repo.checkout(f"development/{queue_branch.major}")
+    else:
+        repo.checkout(f"development/{queue_branch.major}.{queue_branch.minor}")
 
     for branch in queue_branches:
         branch.remove(do_push=False)
